@@ -1,10 +1,12 @@
 #!/bin/bash
-# like mutant_matrix.sh but for the ids given as arguments (default: round-2 ids *c *d)
+# like mutant_matrix.sh but for the ids given as arguments (default: every id under /verif/seeded)
 out=${1:-/verif/work/matrix_r2.txt}; shift; : > $out
-ids="$@"; [ -z "$ids" ] && ids=$(ls /verif/seeded | grep -E '[cd]$')
+ids="$@"; [ -z "$ids" ] && ids=$(ls /verif/seeded)
 for id in $ids; do
   prop=${id:0:3}
-  res=$(/verif/tools/try_mutant.sh /verif/seeded/$id/patch.diff $prop 2>&1 | grep -E "^(== |VIOLATION|BROKEN|patch)" | tr '\n' ' ' | cut -c1-300)
-  echo "$id $res" >> $out
+  log=$(/verif/tools/try_mutant.sh /verif/seeded/$id/patch.diff $prop 2>&1)
+  res=$(echo "$log" | grep -E "^(== |VIOLATION|patch)" | tr '\n' ' ' | cut -c1-300)
+  nb=$(echo "$log" | grep -c "^BROKEN")
+  echo "$id $res broken=$nb" >> $out
 done
 git -C /repo status --short >> $out
